@@ -31,6 +31,7 @@ namespace GT
 inductive FSA.Err
   | keyError      -- KeyError
   | indexError    -- IndexError (`start_vertices[0]` on an empty list)
+  | fsaException  -- FSAException (`add_edges` refusing an edge that contradicts an existing (tail, label))
   | fuel          -- model-only: a `while` loop did not finish within the supplied fuel
   deriving DecidableEq, Repr
 
@@ -98,11 +99,11 @@ fresh `defaultdict(list)` -/
 def outRow (nbrs : Dict L V) : Dict V (List L) :=
   nbrs.foldl (fun d e => d.set e.2 (d.getOr e.2 [] ++ [e.1])) []
 
-/-- `_build_in_dict` (fsa.py:153, repaired: stores a copy of each label list):
+/-- `_build_in_dict` (fsa.py:153, repaired: one (empty) row per vertex first; stores a copy of each label list):
 `in_dict[w][v] = list(labels)` with `in_dict` a `defaultdict(dict)` -/
 def buildInDict (out : Dict V (Dict V (List L))) : Dict V (Dict V (List L)) :=
   out.foldl (fun inn row => row.2.foldl
-    (fun inn e => inn.set e.1 ((inn.getOr e.1 []).set row.1 e.2)) inn) []
+    (fun inn e => inn.set e.1 ((inn.getOr e.1 []).set row.1 e.2)) inn) (out.map fun row => (row.1, []))
 
 /-- inner loops of `_build_graph_dict` (fsa.py:148-150) for one vertex: `label_dict[v][label] = w` -/
 def graphRow (nbrs : Dict V (List L)) : Dict L V :=
@@ -161,6 +162,8 @@ def addVertices (s : FSA V L) (vs : List V) : FSA V L := vs.foldl addVertex s
 
 /-- body of the per-label loop of the repaired `add_edges`:
 ```
+if self._graph_dict[tail].get(l, head) != head:
+    raise FSAException(...)
 if head not in self._out_dict[tail]:
     self._out_dict[tail][head] = []
     self._in_dict[head][tail] = []
@@ -171,6 +174,8 @@ self._in_dict[head][tail].append(l)
 self._graph_dict[tail][l] = head
 ``` -/
 def addLabel (ignoreRedundant : Bool) (tail head : V) (s : FSA V L) (l : L) : Except Err (FSA V L) := do
+  let grow0 ← s.graph.get tail
+  if (grow0.get? l).getD head ≠ head then throw .fsaException
   let row ← s.out.get tail
   let (out, inn) :=
     if row.contains head then (s.out, s.inn)
@@ -201,19 +206,23 @@ def addEdges (s : FSA V L) (edges : List (V × V × L)) (ignoreRedundant : Bool 
     Except Err (FSA V L) :=
   s.addEdgesL (edges.map fun e => (e.1, e.2.1, [e.2.2])) ignoreRedundant
 
-/-- `edge_labels(tail, head)` (fsa.py:215), which is also the read inside `has_edge` (fsa.py:178)
-and `edge_label` (fsa.py:202): `self._out_dict[tail][head]` on a `defaultdict(list)` *inserts* an
-empty list for a missing `head` -/
-def edgeLabels (s : FSA V L) (tail head : V) : Except Err (FSA V L × List L) := do
+/-- `edge_labels(tail, head)` (fsa.py:215, repaired): a copy of `self._out_dict[tail].get(head, ())`;
+`KeyError` for an unknown `tail`.  A read accessor: the automaton is not an output. -/
+def edgeLabels (s : FSA V L) (tail head : V) : Except Err (List L) := do
   let row ← s.out.get tail
-  match row.get? head with
-  | some ls => return (s, ls)
-  | none => return ({ s with out := s.out.set tail (row.set head []) }, [])
+  return (row.get? head).getD []
 
-/-- `has_edge(tail, head)` (fsa.py:178) -/
-def hasEdge (s : FSA V L) (tail head : V) : Except Err (FSA V L × Bool) := do
-  let (s', ls) ← s.edgeLabels tail head
-  return (s', decide (ls.length > 0))
+/-- `has_edge(tail, head)` (fsa.py:178, repaired) -/
+def hasEdge (s : FSA V L) (tail head : V) : Except Err Bool := do
+  let ls ← s.edgeLabels tail head
+  return decide (ls.length > 0)
+
+/-- `edge_label(tail, head)` (fsa.py:202, repaired): the label of the unique edge, `none` = `ValueError` -/
+def edgeLabel (s : FSA V L) (tail head : V) : Except Err (Option L) := do
+  let ls ← s.edgeLabels tail head
+  match ls with
+  | [l] => return some l
+  | _ => return none
 
 /-- first loop of `delete_vertex` (fsa.py:280-281): `self._in_dict[w].pop(vertex)` for `w` in
 `neighbors_out(vertex)` -/
@@ -469,7 +478,7 @@ inductive Op (V L : Type)
   | recurrent
   | rename (m : Dict L L)
   | copy
-  | hasEdge (tail head : V)   -- a query; listed because it writes to a `defaultdict`
+  | hasEdge (tail head : V)   -- a read accessor (it used to write to a `defaultdict`)
 
 /-- apply one operation -/
 def applyOp (s : FSA V L) : Op V L → Except Err (FSA V L)
@@ -481,7 +490,7 @@ def applyOp (s : FSA V L) : Op V L → Except Err (FSA V L)
   | .recurrent => s.recurrent
   | .rename m => s.rename m
   | .copy => .ok s.copy
-  | .hasEdge t h => (s.hasEdge t h).map Prod.fst
+  | .hasEdge t h => (s.hasEdge t h).map fun _ => s
 
 /-- apply a history, stopping at the first operation that raises -/
 def run (s : FSA V L) : List (Op V L) → Except Err (FSA V L)
